@@ -66,6 +66,19 @@ func genRace(t *rapid.T) raceCase {
 			}
 			switch rapid.SampledFrom([]string{"decode", "decode", "mic", "crypt", "lookup", "register", "register", "band", "netid", "shared", "shared", "yield"}).Draw(t, "op") {
 			case "decode":
+				if rapid.IntRange(0, 2).Draw(t, "unknowncid") == 0 {
+					// a frame whose FOpts / port-0 payload carry proprietary CIDs nobody registers (0xe0..0xff: the register
+					// ops use 0x80..0xbf): the decoder's path for unknown commands is shared by all goroutines too
+					f := ref.Frame{MType: byte(gen.DataMType(t)), DevAddr: 0x01020304, FCnt: 9, FPort: -1}
+					cids := []byte{0xe0 + byte(rapid.IntRange(0, 31).Draw(t, "pcid")), 0xe0 + byte(rapid.IntRange(0, 31).Draw(t, "pcid2"))}
+					if rapid.Bool().Draw(t, "infrm") {
+						f.FPort, f.FRM = 0, cids
+					} else {
+						f.FOpts = cids
+					}
+					l = append(l, raceOp{Op: "decode", Frame: f.Encode()})
+					continue
+				}
 				l = append(l, raceOp{Op: "decode", Frame: gen.AnyFrame(t).Encode()})
 			case "mic":
 				l = append(l, raceOp{Op: "mic", Frame: gen.DataFrame(t, gen.DataMType(t), gen.DataOpts{MaxFRM: 40}).Encode(), Key: key[:]})
